@@ -170,8 +170,29 @@ type bodyCase struct {
 	// middleware instance whose handler reads that many body bytes and then panics (recovered by the harness
 	// like a recovery middleware). It yields no case line; this request must be served as if nothing happened.
 	PoisonRead *int `json:",omitempty"`
-	shared     *bodyShared
+	// Style: how the handler consumes the body. "" = its own Read loop with the buffer sizes Caps / Dflt;
+	// "copy" = io.Copy(plain writer, c.Request.Body) — the body itself is handed to io.Copy, so that an io.WriterTo it
+	// may offer is used (32 KiB buffer otherwise: the case line says Dflt = 32768, no Caps); "readall" = io.ReadAll
+	// through a reader that records the buffer size of every call (those sizes become the Caps of the case line).
+	Style  string `json:",omitempty"`
+	shared *bodyShared
 }
+
+// capRecorder forwards Read and remembers len(p) of every call.
+type capRecorder struct {
+	r    io.Reader
+	caps []int
+}
+
+func (c *capRecorder) Read(p []byte) (int, error) {
+	c.caps = append(c.caps, len(p))
+	return c.r.Read(p)
+}
+
+// plainSink is an io.Writer and nothing else (no io.ReaderFrom: io.Copy decides by the source alone).
+type plainSink struct{ b []byte }
+
+func (p *plainSink) Write(b []byte) (int, error) { p.b = append(p.b, b...); return len(b), nil }
 
 // bodyShared is one router + middleware instance used by all requests of a sequence.
 type bodyShared struct {
@@ -293,6 +314,12 @@ func genBody(r *hx.Rand) *bodyCase {
 		}
 	}
 	c.Dflt = hx.Pick(r, []int{1, 2, 3, 7, 512, lim, lim + 1})
+	switch r.Intn(7) {
+	case 0:
+		c.Style = "copy"
+	case 1:
+		c.Style = "readall"
+	}
 	for i, nc := 0, r.Range(0, 4); i < nc; i++ {
 		c.Caps = append(c.Caps, hx.Pick(r, []int{1, 2, lim, lim + 1, max(lim-1, 1), 64, 0}))
 	}
@@ -378,11 +405,11 @@ func (c *bodyCase) emit(id string, st *hx.Stats) string {
 			ill = true
 		}
 	}
-	l.Nat(c.Dflt).Nat(len(c.Caps))
-	for _, k := range c.Caps {
-		l.Nat(k)
-	}
 	in := l.String()
+	dfltOut, capsOut := c.Dflt, c.Caps
+	if c.Style == "copy" {
+		dfltOut, capsOut = 32*1024, nil
+	}
 
 	// run the real middleware
 	var (
@@ -426,8 +453,33 @@ func (c *bodyCase) emit(id string, st *hx.Stats) string {
 			})
 		}
 		fuel := len(c.Body) + len(c.Script) + 3
+		classify := func(err error) {
+			switch {
+			case err == nil || err == io.EOF:
+				ec = "E"
+			case errors.Is(err, bodylimit.ErrBodyLimitExceeded):
+				ec = "L"
+			default:
+				ec = "O"
+			}
+		}
 		chain = append(chain, func(ctx *router.Context) {
 			ran = true
+			switch c.Style {
+			case "copy":
+				sink := &plainSink{}
+				_, err := io.Copy(sink, ctx.Request.Body)
+				data = sink.b
+				classify(err)
+				return
+			case "readall":
+				rec := &capRecorder{r: ctx.Request.Body}
+				b, err := io.ReadAll(rec)
+				data = b
+				capsOut = rec.caps
+				classify(err)
+				return
+			}
 			buf := make([]byte, 1024)
 			for i := 0; i < fuel; i++ {
 				k := c.Dflt
@@ -493,6 +545,10 @@ func (c *bodyCase) emit(id string, st *hx.Stats) string {
 		}
 		return ""
 	}
+	l.Nat(dfltOut).Nat(len(capsOut))
+	for _, k := range capsOut {
+		l.Nat(k)
+	}
 	l.Sep()
 	if panicked {
 		l.Tok("P")
@@ -500,6 +556,10 @@ func (c *bodyCase) emit(id string, st *hx.Stats) string {
 		l.Nat(rec.Code).Bool(ran).Tok(ec).Bytes(data)
 	}
 	if st != nil {
+		if c.Style != "" {
+			st.Count("B.handler_" + c.Style)
+		}
+		in += " " + c.Style + fmt.Sprint(dfltOut, capsOut)
 		n, lim := len(c.Body), int(c.Limit)
 		near := n >= lim-1 && n <= lim+1
 		st.Case(in[len(id):], near || boundaryAtLimit || ill || declared == "lying" || declared == "garbage")
@@ -613,6 +673,39 @@ type authCase struct {
 	// router.WithoutCancellationCheck() (so that the chain is not cut short before the middleware)
 	Validator bool `json:",omitempty"`
 	CtxDone   bool `json:",omitempty"`
+	// Method ("" = GET) and Extra request headers (CORS preflight headers, proxy / upgrade / forwarded-user headers,
+	// credentials in Proxy-Authorization, a second Authorization line): none of them is part of the decision
+	Method string      `json:",omitempty"`
+	Extra  [][2]string `json:",omitempty"`
+}
+
+var authMethods = []string{"GET", "POST", "PUT", "PATCH", "DELETE", "OPTIONS", "HEAD"}
+
+func genAuthExtras(r *hx.Rand, c *authCase) {
+	if r.Chance(1, 2) {
+		c.Method = hx.Pick(r, []string{"OPTIONS", "OPTIONS", "HEAD", "POST", "PUT", "DELETE", "PATCH"})
+	}
+	good := "Basic " + b64("admin:secret")
+	if len(c.Users) > 0 {
+		good = "Basic " + b64(string(c.Users[0][0])+":"+string(c.Users[0][1]))
+	}
+	pool := [][2]string{{"Origin", "https://app.example.com"}, {"Access-Control-Request-Method", "POST"},
+		{"Access-Control-Request-Headers", "authorization"}, {"Upgrade", "websocket"}, {"Connection", "Upgrade"},
+		{"X-Forwarded-User", "admin"}, {"X-Remote-User", "admin"}, {"Proxy-Authorization", good}, {"X-Authorization", good},
+		{"Cookie", "session=1"}, {"X-Requested-With", "XMLHttpRequest"}, {"Sec-Fetch-Mode", "cors"}, {"Authorization", good},
+		{"X-Health-Check", "1"}, {"User-Agent", "kube-probe/1.29"}, {"X-Forwarded-For", "127.0.0.1"}}
+	switch r.Intn(3) {
+	case 0: // a complete CORS preflight
+		c.Method = "OPTIONS"
+		c.Extra = [][2]string{pool[0], pool[1]}
+		if r.Chance(1, 2) {
+			c.Extra = append(c.Extra, pool[2])
+		}
+	default:
+		for range r.Range(1, 3) {
+			c.Extra = append(c.Extra, hx.Pick(r, pool))
+		}
+	}
 }
 
 // authValidator is the user-supplied validator of the Validator cases: the password must be the user name
@@ -637,6 +730,14 @@ var userPool = [][2]string{
 func b64(s string) string { return base64.StdEncoding.EncodeToString([]byte(s)) }
 
 func genAuth(r *hx.Rand) *authCase {
+	c := genAuth0(r)
+	if r.Chance(1, 3) {
+		genAuthExtras(r, c)
+	}
+	return c
+}
+
+func genAuth0(r *hx.Rand) *authCase {
 	c := &authCase{Realm: B(hx.Pick(r, []string{"Restricted", "", "a\"b", "Admin Area"}))}
 	if r.Chance(1, 5) {
 		c.Validator = true
@@ -825,9 +926,27 @@ func (c *authCase) emit(id string, st *hx.Stats) string {
 		}
 		r.GET("/", h)
 		r.GET("/*", h)
+		for _, p := range []string{"/", "/*"} {
+			r.POST(p, h)
+			r.PUT(p, h)
+			r.PATCH(p, h)
+			r.DELETE(p, h)
+			r.OPTIONS(p, h)
+			r.HEAD(p, h)
+		}
 		req := areq
+		if c.Method != "" {
+			req.Method = c.Method
+		}
 		if c.Auth != nil {
 			req.Header["Authorization"] = []string{auth}
+		}
+		for _, kv := range c.Extra {
+			if c.Auth == nil && http.CanonicalHeaderKey(kv[0]) == "Authorization" {
+				continue // the case is "no Authorization header"
+			}
+			// a second Authorization line goes AFTER the one the case is about (Header.Get reads the first)
+			req.Header[http.CanonicalHeaderKey(kv[0])] = append(req.Header[http.CanonicalHeaderKey(kv[0])], kv[1])
 		}
 		r.ServeHTTP(rec, req)
 	})
@@ -859,6 +978,9 @@ func (c *authCase) emit(id string, st *hx.Stats) string {
 		}
 		if c.Validator {
 			st.Count("A.with_validator")
+		}
+		if c.Method != "" || len(c.Extra) > 0 {
+			st.Count("A.other_method_or_extra_headers")
 		}
 		if c.CtxDone {
 			st.Count("A.request_context_already_cancelled")
@@ -1404,6 +1526,20 @@ func genMethod(r *hx.Rand) *methodCase {
 			c.Direct = false
 		}
 	}
+	if r.Chance(1, 12) {
+		// header and query parameter disagree: one names a method the allow-list refuses (or nothing usable), the other
+		// an allowed one — the header alone decides when it is not empty
+		bad := hx.Pick(r, []string{"TRACE", "CONNECT", "GET", "trace", " ", "PU T", "DELETE,PUT", "OPTIONS"})
+		good := hx.Pick(r, []string{"DELETE", "PUT", "PATCH", "delete", " put "})
+		hv, qv := bad, good
+		if r.Chance(1, 3) {
+			hv, qv = good, bad
+		}
+		c.Hdr = map[string]B{"X-HTTP-Method-Override": B(hv)}
+		c.RawQuery = B("_method=" + url.QueryEscape(qv))
+		c.Method = "POST"
+		c.Direct = false
+	}
 	c.CLen = int64(hx.Pick(r, []int{0, 0, 5, -1}))
 	return c
 }
@@ -1830,10 +1966,19 @@ func fixedCases() []caseT {
 		{Kind: "E", Err: &errCase{Which: "B", Limit: 1048575}},
 		{Kind: "E", Err: &errCase{Which: "B", Limit: 1023}},
 		{Kind: "E", Err: &errCase{Which: "A", Realm: B("Restricted")}},
+		// the handler streams the body with io.Copy / reads it with io.ReadAll: one over the limit without Content-Length
+		{Kind: "B", Body: &bodyCase{Limit: 5, Body: B("123456"), Style: "copy", Dflt: 8}},
+		{Kind: "B", Body: &bodyCase{Limit: 5, Body: B("12345"), Style: "copy", EofWithLast: true, Dflt: 8}},
+		{Kind: "B", Body: &bodyCase{Limit: 5, Body: B("123456"), Style: "readall", Script: []stepT{d(5), d(1)}, Dflt: 8}},
 		// basic auth: password with colons, lower-case scheme, user name with a colon
 		{Kind: "A", Auth: &authCase{Users: [][2]B{{B("colon"), B("a:b:c")}}, Realm: B("Restricted"), Auth: bp("Basic " + b64("colon:a:b:c"))}},
 		{Kind: "A", Auth: &authCase{Users: [][2]B{{B("admin"), B("secret")}}, Realm: B("Restricted"), Auth: bp("basic " + b64("admin:secret"))}},
 		{Kind: "A", Auth: &authCase{Users: [][2]B{{B("a:b"), B("x")}, {B("a"), B("b:x")}}, Realm: B("Restricted"), Auth: bp("Basic " + b64("a:b:x"))}},
+		// a CORS preflight is a request like any other: no credentials, no handler
+		{Kind: "A", Auth: &authCase{Users: [][2]B{{B("admin"), B("secret")}}, Realm: B("Restricted"), Method: "OPTIONS",
+			Extra: [][2]string{{"Origin", "https://app.example.com"}, {"Access-Control-Request-Method", "DELETE"}}}},
+		{Kind: "A", Auth: &authCase{Users: [][2]B{{B("admin"), B("secret")}}, Realm: B("Restricted"), Auth: bp("Basic " + b64("admin:wrong")),
+			Extra: [][2]string{{"Authorization", "Basic " + b64("admin:secret")}, {"Proxy-Authorization", "Basic " + b64("admin:secret")}}}},
 		// skip paths are literal: a path that only cleans to a skip path is still protected
 		{Kind: "A", Auth: &authCase{Users: [][2]B{{B("admin"), B("secret")}}, Realm: B("Restricted"), Skip: []string{"/health"}, Target: "/reports/../health"}},
 		{Kind: "A", Auth: &authCase{Users: [][2]B{{B("admin"), B("secret")}}, Realm: B("Restricted"), Skip: []string{"/health"}, Target: "/health"}},
